@@ -1257,7 +1257,7 @@ Lemma refuted_cleared_persists :
     ttl <= 0 /\ o = OSet k (Some v) ttl /\ forallb (fun x => negb (names k x)) mid = true /\
     dget (data (run_from false (fst (step false (run false pre) o)) mid)) k = None.
 Proof.
-  exists [OSet 1 (Some (JStr 7)) (50 * ms)], (OSet 1 (Some (JStr 7)) 0), 1%N, (JStr 7), 0, [OAdvance (150 * ms)].
+  exists [OSet 1 (Some (JStr 7)) (50 * msec)], (OSet 1 (Some (JStr 7)) 0), 1%N, (JStr 7), 0, [OAdvance (150 * msec)].
   repeat split; try reflexivity; try lia.
 Qed.
 
@@ -1269,7 +1269,7 @@ Proof. exists (firstn 3 h_late), 0%nat. split; vm_compute; reflexivity. Qed.
 Lemma refuted_refines :
   exists ops o, ~ speq (abs (fst (step false (run false ops) o))) (spec_step (abs (run false ops)) o).
 Proof.
-  exists (firstn 2 h_clear), (OAdvance (150 * ms)). intros (E1 & _). specialize (E1 1%N). vm_compute in E1. discriminate.
+  exists (firstn 2 h_clear), (OAdvance (150 * msec)). intros (E1 & _). specialize (E1 1%N). vm_compute in E1. discriminate.
 Qed.
 
 (* ---- lock programs: every method is a sequence of whole critical sections ---- *)
